@@ -342,12 +342,26 @@ def cacheOf (blocks : List (Nat × BlockOut)) (sel : Bytes → Nat → Bool) : C
 
 def outputOf (output : Bytes) (outs : Outputs) : Option Bytes := (outs.find? (fun p => p.1 == output)).map (·.2)
 
-/-- the linear specification: every module runs from the lowest initial block (stores must see every
-block from their initial block on), the client receives the output module's outputs of `[start, stop)`
-— and the block at which a module failed, if any -/
+/-- names a module depends on: its map / store inputs and its block-filter module -/
+def depsOf (m : ModSpec) : List Bytes :=
+  (m.inputs.filterMap fun i => match i.kind with
+    | .map | .get | .deltas => some i.ref
+    | _ => none) ++ (if m.filterMod = [] then [] else [m.filterMod])
+
+/-- the modules needed for `output` (its ancestor closure), in the order of the module list -/
+def usedMods (w : World) (output : Bytes) : World :=
+  let step (names : List Bytes) : List Bytes :=
+    w.foldl (fun acc m => if acc.contains m.name then (depsOf m).foldl (fun a d => if a.contains d then a else a ++ [d]) acc else acc) names
+  let names := (List.range w.length).foldl (fun acc _ => step acc) [output]
+  w.filter (fun m => names.contains m.name)
+
+/-- the linear specification: the modules needed for the output run from the lowest initial block
+(stores must see every block from their initial block on), the client receives the output module's
+outputs of `[start, stop)` — and the block at which a module failed, if any -/
 def linearSpec (w : World) (maxDepth : Nat) (output : Bytes) (start stop : Nat) : (List (Nat × Option Bytes)) × Option Nat :=
-  let lowest := w.foldl (fun acc m => min acc m.init) start
-  let r := runBlocks w maxDepth (stop - lowest) lowest ⟨[]⟩
+  let u := usedMods w output
+  let lowest := u.foldl (fun acc m => min acc m.init) start
+  let r := runBlocks u maxDepth (stop - lowest) lowest ⟨[]⟩
   ((r.blocks.filter (fun p => start ≤ p.1)).map (fun p => (p.1, outputOf output p.2.outs)), r.failed)
 
 end SV.Lin
